@@ -2177,6 +2177,9 @@ def preprocess_file(
         regex = re.compile(rf"\b{def_name}\s*\({','.join(['(.*)']*len(def_args))}\)")
 
         for i, arg in enumerate(def_args, start=1):
+            # A macro without parameters, `#define F() body`, has no names to replace
+            if not arg.strip():
+                continue
             sub = re.sub(rf"\b({arg.strip()})\b", rf"\\{i}", sub)
 
         return regex, sub
